@@ -343,6 +343,19 @@ fn run_scenario(s: &Scenario, miri: bool, hb: Option<&Heartbeat>) -> Outcome {
     if result.is_some() {
         let _ = w.join();
     } // else: leak the stuck thread
+    if let (Some((WaitRes::Ok, _, _)), None, Kind::Credit { chunk }) = (&result, &violation, &s.kind) {
+        // a grant must have been justified at some instant of the wait. Without an advance, `sent` only grows and
+        // `acked` only grows, so in-flight(t) >= sent_at_start - acked_at_end for every t; if even that lower bound
+        // leaves no room for the chunk, the waiter was released without credit (e.g. a wake that re-checks a weaker
+        // predicate than the entry check).
+        let advanced = ops.iter().any(|(_, _, o, _)| matches!(o, Sig::Advance { .. }));
+        let (_, acked_final) = ctl.offsets();
+        let sent0 = s.pre * s.unit;
+        let lb = sent0.saturating_sub(acked_final);
+        if !advanced && lb > 0 && lb + chunk > s.window {
+            violation = Some(("C12:credit-granted-without-room".into(), describe(&format!("waiter for a {chunk}-byte chunk returned Ok although in-flight never dropped below {lb} with window {}", s.window))));
+        }
+    }
     if let (Some((res, _, took)), None) = (&result, &violation) {
         // plausibility of the returned value
         match res {
